@@ -303,10 +303,23 @@ func runCase(t *testing.T, res *engine.Result, c caseSpec, verbose bool) {
 					bestFitReading = readings[bestFit]
 				}
 				rep := c.evalVS(p, l.Port, req, bestFitReading)
-				for _, rd := range readings {
-					if w := c.evalVS(p, l.Port, req, rd); gotRule != "" && w.Why == gotRule {
-						rep = w
-						break
+				if gotRule != "" {
+					// a host defined by several VirtualServices: compare within the VirtualService whose
+					// route Envoy selected
+					for _, w := range c.evalVSAll(p, l.Port, req, bestFitReading) {
+						if sameVS(w.Why, gotRule) {
+							rep = w
+							break
+						}
+					}
+				pick:
+					for _, rd := range readings {
+						for _, w := range c.evalVSAll(p, l.Port, req, rd) {
+							if w.Why == gotRule {
+								rep = w
+								break pick
+							}
+						}
 					}
 				}
 				wantClass := strings.SplitN(strings.SplitN(rep.Why, "(", 2)[0], "/", 2)[0]
@@ -576,7 +589,12 @@ func enumerate(thorough bool) (cases []caseSpec, spaces map[string]int) {
 	// (1) all single rules x host shape x service present/absent x DestinationRule present/absent
 	//     (+ the top-level gateways binding variants on the plain shapes)
 	for m := 0; m < nM; m++ {
-		for a := 0; a < nA; a++ {
+		for a := 0; a < len(actionAlphabet); a++ {
+			if !thorough && a >= quickActions && m >= 5 {
+				// quick: the three extra actions only with the first few matches (they only differ in
+				// the action translation)
+				continue
+			}
 			for sh := 0; sh < nShapes; sh++ {
 				for _, svc := range bools {
 					for _, dr := range bools {
@@ -676,7 +694,7 @@ func TestC12(t *testing.T) {
 	res := engine.NewResult("C12", "routes")
 	res.Rule = "case = (host shape A|W|AW|WA, service present/absent, DestinationRule present/absent, top-level gateways binding, rule list over match alphabet x action alphabet); " +
 		"every case is built by the real istio code and every request of the product of the request dimensions its literals touch is evaluated on the sidecar (listeners 80, 8080) and gateway (80) route tables; " +
-		"non-trivial = case whose requests received >= 2 different routing decisions on some proxy"
+		"non-trivial = case in which the requests addressed to a.example.com received >= 2 different routing decisions on one listener (the rule list discriminates)"
 	defer res.Write(t, env)
 	silenceLogs()
 
